@@ -215,6 +215,13 @@ class CFG:
                         kinds[i] = 'ok' if rv['kind']['variant'] == 'Ok' else 'err'
                     elif rv['k'] == 'aggregate' and rv['kind'].get('a') == 'adt' and rv['kind']['path'].endswith('::Option'):
                         kinds[i] = 'some' if rv['kind']['variant'] == 'Some' else 'none'
+                    elif 'known_variant' in s:
+                        # spliced helper result whose variant is known on this path (bpsa/inline.py)
+                        ty0 = self.body.locals[0]['ty']
+                        if ty0.startswith('std::option::Option'):
+                            kinds[i] = 'some' if s['known_variant'] == 1 else 'none'
+                        else:
+                            kinds[i] = 'ok' if s['known_variant'] == 0 else 'err'
                     else:
                         kinds.setdefault(i, 'value')
             t = b['term']
